@@ -522,7 +522,9 @@ func (option *Option) updateDefaultLiteral() {
 	if len(defs) == 0 && option.canArgument() {
 		var showdef bool
 
-		switch option.field.Type.Kind() {
+		// (the type of the value, not of the struct field: an option added
+		// with AddOption has no field)
+		switch option.value.Type().Kind() {
 		case reflect.Func, reflect.Ptr:
 			showdef = !option.value.IsNil()
 		case reflect.Slice, reflect.String, reflect.Array:
@@ -530,7 +532,7 @@ func (option *Option) updateDefaultLiteral() {
 		case reflect.Map:
 			showdef = !option.value.IsNil() && option.value.Len() > 0
 		default:
-			zeroval := reflect.Zero(option.field.Type)
+			zeroval := reflect.Zero(option.value.Type())
 			showdef = !reflect.DeepEqual(zeroval.Interface(), option.value.Interface())
 		}
 
